@@ -114,8 +114,9 @@ static nsync_dll_element_ *wait_for_children_to_change (nsync_note n) {
 
 /* Notify *n and all its descendants that are not already disconnnecting.
    n->note_mu is held.  May release and reacquire n->note_mu.
-   parent->note_mu is held if parent != NULL. */
-static void note_notify_child (nsync_note n, nsync_note parent) {
+   parent->note_mu is held if parent != NULL.
+   my_disconnecting is the caller's own contribution to n->disconnecting.  */
+static void note_notify_child (nsync_note n, nsync_note parent, uint32_t my_disconnecting) {
 	nsync_time t;
 	t = NOTIFIED_TIME (n);
 	if (nsync_time_cmp (t, nsync_time_zero) > 0) {
@@ -133,7 +134,7 @@ static void note_notify_child (nsync_note n, nsync_note parent) {
 			next = nsync_dll_next_ (n->children, p);
 			nsync_mu_lock (&child->note_mu);
 			if (child->disconnecting == 0) {
-				note_notify_child (child, n);
+				note_notify_child (child, n, 0);
 			}
 			nsync_mu_unlock (&child->note_mu);
 			if (next == NULL) { /* end of list; start again if any are left */
@@ -141,7 +142,12 @@ static void note_notify_child (nsync_note n, nsync_note parent) {
 			}
 		}
 		WAIT_FOR_NO_CHILDREN (no_children, n);
-		if (parent != NULL) {
+		/* n->note_mu was released while waiting for the children, so
+		   another thread may have begun to disconnect *n (to free it)
+		   and may be waiting for parent->note_mu with a pointer to
+		   *parent, which stays valid only while *n is its child.  If
+		   so, leave the removal of *n from *parent to that thread. */
+		if (parent != NULL && n->disconnecting == my_disconnecting) {
 			parent->children = nsync_dll_remove_ (parent->children,
 						              &n->parent_child_link);
 			WAKEUP_NO_CHILDREN (parent);
@@ -171,7 +177,7 @@ static void notify (nsync_note n) {
 			nsync_mu_lock (&parent->note_mu);
 			nsync_mu_lock (&n->note_mu);
 		}
-		note_notify_child (n, parent);
+		note_notify_child (n, parent, 1);
 		if (parent != NULL) {
 			nsync_mu_unlock (&parent->note_mu);
 		}
